@@ -1325,13 +1325,6 @@ pub fn main() {
                                    "resolver_log": events_json(&events)}),
                             );
                         }
-                        if std::env::var("VH_GATE_DEBUG").is_ok() && !v.executed {
-                            let msg = responses.first().and_then(|r| r.errors.first()).map(|e| e.message.clone()).unwrap_or_default();
-                            run.seen("debug_errors", &format!("{}|{}", cell.name(), vh_core::run::truncate(&msg, 90)));
-                            if cell.schema == Mode::Enabled && cell.request == Mode::Enabled {
-                                eprintln!("DEBUG [{}] {} => {}", cell.name(), doc.text, msg);
-                            }
-                        }
                         report(run, cell, &doc, &responses, &events, &v, "gen-");
                         i += shards;
                     }
